@@ -15,6 +15,7 @@ CONSTANTS
   WriteLock = FALSE
   AtomicDown = TRUE
   CompleteOnDownError = TRUE
+  CloseBeforeSwap = TRUE
   MaxFaults = 1
   MaxCancels = 1
   AllowClose = TRUE
